@@ -10,11 +10,12 @@ from .evaluator import EvalCtx
 from .nast import extract_scope
 
 log = logging.getLogger('supp.assistant')
+IDENTIFIER = re.compile(r'[^\W\d]\w*$', re.U)
 
 
 def list_packages(project, root, filename):
     root = project.norm_package(root, filename)
-    return sorted(r for r in project.list_packages(root))
+    return sorted(r for r in project.list_packages(root) if IDENTIFIER.match(r))
 
 
 def assist(project, source, position, filename=None, debug=False):
